@@ -20,7 +20,7 @@ from __future__ import annotations
 
 import ast
 
-from ..repo import AnalysisError
+from ..repo import AnalysisError, own_nodes
 from .common import DISPATCHER, is_notify, resolve_root
 
 MANIFEST = {
@@ -179,6 +179,15 @@ def _ready_polarity(n):
     return None
 
 
+def _enclosing_if(fi, node):
+    cur = fi.module.parents.get(node)
+    while cur is not None and cur is not fi.node:
+        if isinstance(cur, ast.If):
+            return cur
+        cur = fi.module.parents.get(cur)
+    return None
+
+
 def _is_observer_callback(ctx, ev):
     return is_notify(ctx, ev)
 
@@ -188,6 +197,7 @@ def run(ctx):
     chk.rule("R09.a", "no write to dispatcher/schedule/argument state precedes an explicit raise on any path of Dispatcher.dispatch")
     chk.rule("R09.b", "no observer notification on a raising path")
     chk.rule("R09.c", "environment step: nothing is written (env, dispatcher, observers) before a raise; delegates before touching own state")
+    chk.rule("R09.e", "request parameters of dispatch are rebound only under `<param> is None` (documented default), never replaced otherwise")
     chk.rule("R09.d", "the documented rejections exist as raising guards: not-ready operation, ineligible machine, finished job")
 
     disp = repo.find_class(DISPATCHER)
@@ -263,6 +273,31 @@ def run(ctx):
                     loc=last_branch.loc,
                 )
 
+    # ---------------------------------------------------------------- R09.e
+    # the request's own arguments are never replaced: the only rebinding of
+    # a request parameter allowed is the documented default under
+    # `<param> is None`
+    n_rebind = 0
+    for n in own_nodes(dispatch.node):
+        if not isinstance(n, ast.Assign):
+            continue
+        for t in n.targets:
+            if isinstance(t, ast.Name) and t.id in dispatch.params[1:]:
+                n_rebind += 1
+                guard = _enclosing_if(dispatch, n)
+                want = f"{t.id} is None"
+                if guard is not None and ast.unparse(guard.test) in (want, f"{t.id} == None") and n in guard.body:
+                    chk.ok("R09.e", dispatch.qualname, dispatch.loc(n), f"`{t.id}` defaulted only under `{want}`")
+                else:
+                    gt = ast.unparse(guard.test) if guard is not None else "no guard"
+                    chk.violation(
+                        "R09.e", dispatch, n,
+                        f"the request parameter `{t.id}` is replaced under `{gt}`, not only when it is None: "
+                        "a caller-supplied (possibly ineligible or out-of-range) value is silently swapped for "
+                        "another one and the request is accepted instead of rejected",
+                        loc=dispatch.loc(n),
+                    )
+
     nxt = repo.need_method(disp, "next_operation")
     np_ = eng.paths(nxt, disp)
 
@@ -292,6 +327,21 @@ def run(ctx):
         e2 = ctx.engine(relevant=_relevant, max_depth=8)
         ps, nr = check_entry(ctx, "R09.c", "R09.c", step, env, e2, f"{cname}.step", stop_at_accept=True)
         n_env += nr
+        # every returning step resolved the job's next operation and
+        # dispatched it: a step for a finished job cannot return normally
+        for p in ps:
+            if p.outcome == "raise":
+                continue
+            has_next = any(e.kind == "call" and nxt in (e.data.get("targets") or []) for e in p.events)
+            has_disp = any(e.kind == "call" and dispatch in (e.data.get("targets") or []) for e in p.events)
+            if not (has_next and has_disp):
+                chk.violation(
+                    "R09.c", step, None,
+                    f"{cname}.step can return without " + ("resolving the job's next operation" if not has_next else "dispatching")
+                    + ": a step for a job with no operations left is not rejected",
+                    path=p.describe(),
+                )
+                break
         chk.analysed[f"{cname}_step_paths"] = len(ps)
     chk.floor("R09.c", n_env, 6, "raising paths through the environments' step")
     chk.floor("R09.a", n_raise, 4, "raising paths of dispatch")
